@@ -40,7 +40,7 @@ EXCLUSIONS = {
                  'of the source type, unless the source is a constant expression [finding narrowing-keeps-range]',
     'mixed-sign-compare': 'comparisons and ?: arms of different signedness are converted to long long first '
                           '[finding unsigned-wrap]',
-    'mod-div-range': 'divisors are ((e & 255) | 1), i.e. positive and small [findings mod-negative-divisor, div-range]',
+    'mod-div-range': 'divisors are ((e & 255) | 1), i.e. positive and small [finding div-range; mod-negative-divisor repaired in 6571449]',
     'bitnot-nonconst': '~ only on constant expressions [finding bitnot-range]',
     'not-var': '! is never applied to a bare variable [finding not-var-known]',
     'plain-char': 'plain char is not used as a type [finding char-not-truncated]',
